@@ -115,3 +115,22 @@ var _ = st.Field{}
 func Harness_C19_layout_flat3()   { c19Layout(0, 3) }
 func Harness_C19_layout_nested2() { c19Layout(1, 2) }
 func Harness_C19_layout_nested3() { c19Layout(1, 3) }
+
+// quick variant with nesting depth 2: a struct nested inside a struct that
+// itself sits at a non-zero offset
+func Harness_C19_layout_deep2q() {
+	small := func(name string) *types.Var { return types.NewField(0, nil, name, c19LSmall(), false) }
+	inner := types.NewStruct([]*types.Var{small("x"), small("y")}, nil)
+	mid := []*types.Var{small("c"), types.NewField(0, nil, "d", inner, false)}
+	if nondetBool() {
+		mid = append(mid, small("e"))
+	}
+	if nondetBool() {
+		mid[0], mid[1] = mid[1], mid[0]
+	}
+	fields := []*types.Var{small("a"), types.NewField(0, nil, "b", types.NewStruct(mid, nil), false)}
+	if nondetBool() {
+		fields = append(fields, small("f"))
+	}
+	c19LayoutOf(types.NewStruct(fields, nil))
+}
